@@ -537,4 +537,5 @@ func runC02(c *eng.Ctx) {
 	}
 	// (d) initializers registered under a name (addressable by key / usable as a dependency)
 	runC02NamedInitializers(c, next)
+	runC02BuildTimeScope(c, next)
 }
